@@ -755,6 +755,11 @@ func exec(c Case) *vkit.Outcome {
 			if rec, _ := fdkit.CatchPanic(func() { now = pe.ev.Root.EncodeToString() }); rec != nil {
 				continue
 			}
+			if now != pe.enc && !json.Valid([]byte(now)) {
+				// an output that batches encodes the event only now: what is sent on is not a JSON document
+				o.Failf(P, "passed-event-not-json-after-later-events:"+c.Plugin, "event #%d left the action as %q; after the same instance processed the later events of the sequence it encodes to %q, which is not valid JSON (a batching output encodes after Out returned)\nconfig %s events:%s", pe.idx, clip(pe.enc, 300), clip(now, 300), clip(string(c.Config), 300), r.eventsText())
+				break
+			}
 			if now != pe.enc {
 				o.Class("observed:passed-event-changed-by-later-events:" + c.Plugin)
 				vkit.Note(P, fmt.Sprintf("observation (not a C13 clause): an event that %s already passed changed when the instance processed later events: %q -> %q (config %s)", c.Plugin, clip(pe.enc, 160), clip(now, 160), clip(string(c.Config), 200)))
